@@ -364,10 +364,20 @@ def r6(ctx, retsets):
                 ok = vf.expr(fn, inst.args[3]) == ("arg", 3) and vf.expr(fn, inst.args[4]) == ("arg", 4) and vf.expr(fn, inst.args[5]) == ("arg", 5) \
                     and flow.av_single(E.val(inst.args[2])) == ln
                 return ["forward" if ok else "forward_changed"]
-            if rfc8210.conv_kind(pdb, fn, inst) in (("header", "net"), ("all", "net")):
-                return ["conv:" + rfc8210.conv_kind(pdb, fn, inst)[0]]
+            ck = rfc8210.conv_kind(pdb, fn, inst)
+            if ck == ("footer", "net"):
+                # the whole-PDU conversion written out: the footer first (it reads type and length from the header, which must still
+                # be in host order), then the header
+                return ["conv:footer-after-header"] if st.get("hdr") == "1" else ["=ftr:1"]
+            if ck == ("header", "net"):
+                return ["=hdr:1", "conv:all" if st.get("ftr") == "1" else "conv:header"]
+            if ck == ("all", "net"):
+                return ["conv:all"]
             return None
         outs, fl = es.count_effects(fn, pdb, classify, retsets, cell={2: ln})
+        for o in outs:
+            o["counts"].pop("hdr", None)
+            o["counts"].pop("ftr", None)
         exp = {"forward": 1}
         if ln == HDR:
             exp["conv:header"] = 1
